@@ -506,8 +506,39 @@ class RefLog:
         return pd.Series(np.exp(np.asarray(z, dtype=float)), index=z.index)
 
 
+class RefFrozen:
+    """a transformer behind a wrapper that does not pass updates on: fitted once, applied as fitted"""
+
+    def __init__(self, inner):
+        self.inner = inner
+
+    def fit_transform(self, z):
+        return self.inner.fit_transform(z)
+
+    def transform(self, z):
+        return self.inner.transform(z)
+
+    def inverse_transform(self, z):
+        return self.inner.inverse_transform(z)
+
+
+class RefIdentity:
+    def fit_transform(self, z):
+        return z
+
+    def transform(self, z):
+        return z
+
+    def inverse_transform(self, z):
+        return z
+
+
 def _ref_transformer(t):
     """own implementations where the definition is two lines; the package's transformer otherwise (its own behaviour is C13's business)"""
+    if t[0] == "optional":
+        # OptionalPassthrough(T, passthrough=False) means exactly T; with passthrough=True it means nothing at all
+        # (the wrapper has no update of its own, so the wrapped transformer stays as fitted while the pipeline is updated)
+        return RefIdentity() if t[1].get("passthrough", False) else RefFrozen(_ref_transformer(t[2]))
     if t[0] == "detrend" and not t[1].get("default"):
         return RefDetrend(t[1].get("degree", 1))
     if t[0] == "log":
@@ -580,7 +611,7 @@ class Ref:
         if k == "pipeline":
             p = self.final.predict(fh)
             for t in reversed(self.ts):
-                if isinstance(t, (RefDetrend, RefLog)) or not _has_tag(t, "skip-inverse-transform"):
+                if isinstance(t, (RefDetrend, RefLog, RefIdentity)) or (isinstance(t, RefFrozen) and (isinstance(t.inner, (RefDetrend, RefLog)) or not _has_tag(t.inner, "skip-inverse-transform"))) or (not isinstance(t, RefFrozen) and not _has_tag(t, "skip-inverse-transform")):
                     p = t.inverse_transform(p)
             return p
         if k == "stack":
